@@ -131,6 +131,21 @@ Theorem C20_gradients_attributed_to_their_ids : forall (T : Type) (add : T -> T 
 Proof. exact gradients_attributed_to_their_ids. Qed.
 Print Assumptions C20_gradients_attributed_to_their_ids.
 
+(* ---- default names of blocks without `name` (colvarmodule::parse_biases_type, colvarbias::init) ---- *)
+(* an unnamed harmonic block that is accepted is called harmonic<rank> with rank = one more than the number of harmonic blocks
+   ever read, a name no living bias has; deleting objects does not give ranks back *)
+Theorem C20_unnamed_bias_gets_fresh_rank : forall st cs st',
+  add_decl st (DBias None cs) = (st', true) ->
+  st_nharm st' = S (st_nharm st) /\ In (default_bias_name (S (st_nharm st)), cs) (st_biases st') /\
+  ~ In (default_bias_name (S (st_nharm st))) (bias_names st).
+Proof. exact unnamed_bias_gets_fresh_rank. Qed.
+Print Assumptions C20_unnamed_bias_gets_fresh_rank.
+
+Theorem C20_rank_counter_survives_deletion : forall n st d,
+  st_nharm (del_bias n st) = st_nharm st /\ st_nharm (del_cv n st) = st_nharm st /\ (st_nharm st <= st_nharm (fst (add_decl st d)))%nat.
+Proof. exact rank_counter_survives_deletion. Qed.
+Print Assumptions C20_rank_counter_survives_deletion.
+
 (* ---- semantic layer (SemModel.v): the numbers held after a step and the query bodies as projections ---- *)
 (* a query command (15 of them: value, getappliedforce, gettotalforce, getatomids, bias energy, getenergy, getstepabsolute,
    getnumatoms, the five proxy-side atom arrays, getatomids, list) returns the component of the state and changes nothing *)
@@ -245,9 +260,10 @@ Example C20_example_reachable :
 Proof. vm_compute. repeat split. right; right. repeat (try (left; reflexivity); right). Qed.
 
 Definition ex_parse (s : string) : option (list decl) :=
-  if String.eqb s "A" then Some [DCv "y"; DBias "hy" ["y"; "x"]] else if String.eqb s "B" then Some [DCv "x"] else None.
+  if String.eqb s "A" then Some [DCv (Some "y"); DBias (Some "hy") ["y"; "x"]] else if String.eqb s "B" then Some [DCv (Some "x")]
+  else if String.eqb s "U" then Some [DBias None ["x"]] else None.
 Definition ex_read (s : string) : option string := if String.eqb s "f" then Some "A" else None.
-Definition ex_st := mk_state ["x"] [("h", ["x"])].
+Definition ex_st := mk_state ["x"] [("h", ["x"])] 1.
 
 (* a history with malformed calls, a rejected configuration, a deletion that takes a bias with it, and steps *)
 Example C20_example_history :
@@ -255,9 +271,9 @@ Example C20_example_history :
   run_events script_table ex_parse ex_read ex_st
     [ECmd ["cv"; "config"; "A"]; EStep; ECmd ["cv"; "nosuch"]; ECmd ["cv"; "config"; "B"]; ECmd ["cv"; "colvar"; "q"; "delete"];
      ECmd ["cv"; "colvar"; "x"; "delete"; "extra"]; ECmd ["cv"; "colvar"; "x"; "delete"]; EStep; ECmd []]
-  = mk_state ["y"] [] /\
+  = mk_state ["y"] [] 2 /\
   run_events script_table ex_parse ex_read ex_st [ECmd ["cv"; "configfile"; "f"]; ECmd ["cv"; "bias"; "h"; "delete"]]
-  = mk_state ["x"; "y"] [("hy", ["y"; "x"])] /\
+  = mk_state ["x"; "y"] [("hy", ["y"; "x"])] 2 /\
   exec script_table ex_parse ex_read ex_st ["cv"; "config"; "B"] = (ex_st, Run OModule ("cv_config", 1, 1) true, BErr) /\
   is_error (dispatch script_table (st_cvs ex_st) (bias_names ex_st) ["cv"; "bias"; "h"; "energy"; "1"]) = true.
 Proof. vm_compute. repeat split. Qed.
@@ -314,3 +330,11 @@ Example C20_example_cvcflags :
    match alookup "x" (sm_cv st) with Some c => cs_cvcs c = Some [true; true] /\ cs_pending c = None | None => False end) /\
   combine Z.add 0%Z [4; 7]%Z [false; true] = 7%Z.
 Proof. vm_compute. repeat split. Qed.
+
+(* two unnamed harmonic blocks, the first is deleted, a third unnamed block: harmonic3, not a second harmonic2 *)
+Example C20_example_default_names :
+  run_events script_table ex_parse ex_read (mk_state ["x"] [] 0)
+    [ECmd ["cv"; "config"; "U"]; ECmd ["cv"; "config"; "U"]; ECmd ["cv"; "bias"; "harmonic1"; "delete"]; ECmd ["cv"; "config"; "U"]]
+  = mk_state ["x"] [("harmonic2", ["x"]); ("harmonic3", ["x"])] 3 /\
+  default_cv_name (mk_state ["a"; "b"] [] 0) = "colvar3".
+Proof. vm_compute. split; reflexivity. Qed.
